@@ -58,7 +58,7 @@ def check_value(ctx: Ctx, name: str, got: torch.Tensor, spec: Dict[str, Any], S:
 def replay_cases(ctx: Ctx, recs: List[Dict[str, Any]]) -> None:
     import pfhedge.nn.functional as F
     import pfhedge.nn as nn
-    tiny = [0.0, 1e-30, 1e-300]
+    tiny = [0.0, -0.0, 1e-30, 1e-300]       # (-0.0 is zero: e.g. -(t - T) at t = T)
     for rec in recs:
         for K, mag, gap in itertools.product((0.5, 1.0, 2.0), (0.1, 1.0, 50.0), (0.05, 1.0)):
             s, m = concrete(rec, K, mag, gap)
